@@ -1278,6 +1278,14 @@ impl QueryRouter {
     }
 
     /// Should we attempt to parse queries?
+    /// Should the client's SQL be parsed at all: for routing (the session's parser
+    /// setting) or for the pool's plugins. A session that switched the parser off
+    /// with a routing command must not thereby switch the plugins off.
+    pub fn should_parse(&self) -> bool {
+        self.query_parser_enabled()
+            || (self.pool_settings.query_parser_enabled && self.pool_settings.plugins.is_some())
+    }
+
     pub fn query_parser_enabled(&self) -> bool {
         match self.query_parser_enabled {
             None => {
